@@ -111,15 +111,22 @@ Definition is_vt (o : option exc) : bool :=
    is the FIRST thing that happens to the argument -- no subscripting, fancy indexing by the sort order
    or conversion before it -- in every function that validates one, and the eight _setup_* families
    (1-D and 2-D) do validate their weights. *)
+Definition forwarded_arg : string := "method_kws[key]".
+Definition is_pad (a : aevent) : bool := match a with APad => true | _ => false end.
+(* forwarded keyword arrays (optimize_extended_range): only padded, at least once, never used otherwise *)
+Definition forwarded_ok (e : aentry) : bool :=
+  match a_events e with [] => false | l => forallb is_pad l end.
 Definition aentry_ok (e : aentry) : bool :=
-  match a_events e with AValidate :: _ => true | _ => false end.
+  if String.eqb (a_arg e) forwarded_arg then forwarded_ok e
+  else match a_events e with AValidate :: _ => true | _ => false end.
 Definition required_arrays : list (bool * string * string) :=
   [(false, "_setup_whittaker", "weights"); (false, "_setup_polynomial", "weights");
    (false, "_setup_spline", "weights"); (false, "_setup_classification", "weights");
    (true, "_setup_whittaker", "weights"); (true, "_setup_polynomial", "weights");
    (true, "_setup_spline", "weights"); (true, "_setup_classification", "weights");
    (false, "adaptive_minmax", "weights"); (true, "adaptive_minmax", "weights");
-   (false, "aspls", "alpha"); (true, "aspls", "alpha"); (false, "pspline_aspls", "alpha")]%string.
+   (false, "aspls", "alpha"); (true, "aspls", "alpha"); (false, "pspline_aspls", "alpha");
+   (false, "optimize_extended_range", "method_kws[key]")]%string.
 Definition amatches (r : bool * string * string) (e : aentry) : bool :=
   let '(td, fn, arg) := r in
   Bool.eqb td (a_two_d e) && String.eqb fn (a_fn e) && String.eqb arg (a_arg e).
